@@ -93,6 +93,7 @@ def job(cfg):
     normal_draws, uniform_draws, n_draws = samplers.schedule(sched_entry, nsr, ne)
     per = int(np.prod(shape))
     base = np.concatenate([0.7 * filler(shape, 5 * k + 1).ravel() for k in range(len(normal_draws))])
+    D = min(D, len(base))  # a (1,1,1) block with one Cholesky vector has only NW scalar draws
     W = vrng.words(LETTERS, D)
     nwords = np.repeat(base[None], len(W), axis=0)
     pos = [(k % len(normal_draws)) * per + k // len(normal_draws) for k in range(D)]
